@@ -1,9 +1,17 @@
 package main
 
 // spec is the static description of one property's check.
+// part is one harness of a check that spans several (budget share each).
+type part struct {
+	Harness string
+	Share   float64
+	Batch   int
+}
+
 type spec struct {
 	ID      string
 	Harness string
+	Parts   []part // optional: several harnesses decide this property together
 	Race    bool
 	Level   string // exploration | fault_enumeration
 
@@ -74,11 +82,12 @@ func specs() []*spec {
 		},
 		{
 			ID: "C09", Harness: "monsim", Level: "exploration",
+			Parts: []part{{Harness: "monsim", Share: 0.7, Batch: 100}, {Harness: "clustersim", Share: 0.3, Batch: 40}},
 			Batch: 100, QuickSecs: 30, ThoroughSecs: 600, PlanTimeoutS: 20,
-			RequiredProbes: []string{"reads", "alerts", "alert_once_episodes", "expiry_episodes_seen", "window_wrapped", "peerset_change", "remove_peer", "partition", "expired_on_arrival"},
+			RequiredProbes: []string{"reads", "alerts", "alert_once_episodes", "expiry_episodes_seen", "window_wrapped", "peerset_change", "remove_peer", "partition", "expired_on_arrival", "cadence_checked", "retries_checked", "publish_errors", "ipfs_down"},
 			Rule:           "plan = scenario (bare Store+Checker.Watch | pubsubmon Monitors over gossipsub on mocknet, 1-3 hosts) + 5-150 steps (LogMetric arrivals with validity flag and TTL 0.1-60 s incl. already-expired, trains longer than the 25-slot window, PublishMetric over gossipsub, peerset changes, RemovePeer, partitions/heals, reads), with delays chosen so that reads and checker ticks land before/at/after expiry instants; knobs: check interval 0.2-15 s, peerset known or nil, 1-6 peers, 1-3 metric names. Non-trivial = >=1 arrival and >=1 fault/irregular event fired; distinct = distinct canonical trace digest.",
 			Real:           []string{"monitor/metrics Store, Window, Checker (Watch, CheckPeers, CheckAll, alert)", "monitor/pubsubmon Monitor (LogMetric, PublishMetric, LatestMetrics, Alerts, logFromPubsub)", "api.Metric (Expired/Discard)", "go-libp2p-pubsub gossipsub with signing, libp2p basic host on mocknet"},
-			Model:          []string{"reference table (name,peer) -> arrivals; peerset function driven by the plan", "publish cadence of Cluster (informer/ping loops) is decided by clustersim, not here"},
+			Model:          []string{"reference table (name,peer) -> arrivals; peerset function driven by the plan", "publish-cadence part (clustersim): real Cluster.pushInformerMetrics/pushPingMetrics with the real disk and numpin informers over a model IPFS, recording monitor that fails k consecutive publishes"},
 			Assumptions: []string{
 				"at the exact expiry instant either answer is accepted (Expired() is strict)",
 				"with >= 6 samples the accrual detector may legitimately wait: no upper bound on alert delay is asserted there",
